@@ -95,6 +95,7 @@ fn main() {
         "reloadloop" => run_engine(engines::reload::ReloadLoopEngine::new(), mode, rest),
         "control" => run_engine(engines::control::ControlEngine::new(), mode, rest),
         "selhist" => run_engine(engines::selhist::SelHistEngine::new(), mode, rest),
+        "loopsim" => run_engine(engines::loopsim::LoopSim::new(), mode, rest),
         _ => {
             eprintln!("unknown engine {engine}");
             std::process::exit(2)
